@@ -42,6 +42,33 @@ theorem C11_stale_independent (h1 h2 : Mem.Heap) (pool : Mem.Slice) (cfg : Suite
     (Mem.assemble h2 pool cfg i).h.read (Mem.assemble h2 pool cfg i).msg := by
   rw [Props.C12.C12_refines h1 pool cfg i hp1 hl1 hin1, Props.C12.C12_refines h2 pool cfg i hp2 hl2 hin2, hsame]
 
+open OtpVerif.Model.Mem OtpVerif.Lemmas.Mem in
+/-- `binary.BigEndian.PutUint64(buf[:], counter)` on the pooled 8-byte array at address `buf` -/
+def putCounterM (h : Heap) (buf : Nat) (counter : Nat) : Heap := h.write buf 0 (be8 counter)
+
+open OtpVerif.Model.Mem OtpVerif.Lemmas.Mem in
+/-- (b') the HOTP / TOTP counter buffer: whatever the pooled 8-byte array held when it was obtained (stale bytes of any
+earlier call, an adversary's scribbling), after the counter is written the HMAC reads exactly the 8-byte big-endian
+counter, and no other memory changed -/
+theorem C11_counter_buffer (h : Heap) (buf counter : Nat) (hlen : (h.cells buf).length = 8) :
+    (putCounterM h buf counter).read ⟨buf, 0, 8, 8⟩ = be8 counter ∧
+    (∀ a, a ≠ buf → (putCounterM h buf counter).cells a = h.cells a) := by
+  constructor
+  · unfold putCounterM Heap.write Heap.read
+    simp only [if_true]
+    have := read_after_overwrite (h.cells buf) 0 0 (be8 counter) (by rw [hlen]; simp)
+    simpa using this
+  · intro a ha
+    unfold putCounterM Heap.write
+    simp only [if_neg ha]
+
+open OtpVerif.Model.Mem OtpVerif.Lemmas.Mem in
+/-- in particular two heaps that differ arbitrarily in the pooled buffer give the HMAC the same input -/
+theorem C11_counter_stale_independent (h1 h2 : Heap) (buf counter : Nat)
+    (hl1 : (h1.cells buf).length = 8) (hl2 : (h2.cells buf).length = 8) :
+    (putCounterM h1 buf counter).read ⟨buf, 0, 8, 8⟩ = (putCounterM h2 buf counter).read ⟨buf, 0, 8, 8⟩ := by
+  rw [(C11_counter_buffer h1 buf counter hl1).1, (C11_counter_buffer h2 buf counter hl2).1]
+
 /-- (c) the pool operations found in every function that uses a pool follow the protocol: one Get and one Put of the
 same pool, the buffer is written before anything reads it, it is touched only between Get and Put, and it is never
 handed to code that could keep it -/
@@ -89,3 +116,5 @@ end OtpVerif.Props.C11
 #print axioms OtpVerif.Props.C11.C11_protocol_refines
 #print axioms OtpVerif.Props.C11.C11_readonly_globals
 #print axioms OtpVerif.Props.C11.C11_functional
+#print axioms OtpVerif.Props.C11.C11_counter_buffer
+#print axioms OtpVerif.Props.C11.C11_counter_stale_independent
